@@ -260,12 +260,19 @@ impl<const D: usize> GlobalTopologyModel<D> for ToroidalModel<D> {
                 return Err(GlobalTopologyModelError::NonFiniteCoordinate { axis, value: coord });
             }
             let wrapped = coord.rem_euclid(period);
-            *coord_ref = <T as NumCast>::from(wrapped).ok_or(
+            let wrapped_t = <T as NumCast>::from(wrapped).ok_or(
                 GlobalTopologyModelError::ScalarConversion {
                     axis,
                     value: wrapped,
                 },
             )?;
+            // Rounding (inside `rem_euclid` for tiny negative inputs, or in the conversion to
+            // a narrower scalar) can land exactly on `period`; the canonical representative
+            // in the half-open box `[0, period)` is then 0.
+            *coord_ref = match wrapped_t.to_f64() {
+                Some(w) if w >= period => T::zero(),
+                _ => wrapped_t,
+            };
         }
         Ok(())
     }
